@@ -89,6 +89,7 @@ const (
 	KNot  = "not"
 	KBin  = "bin"
 	KCast = "cast"
+	KCall = "call" // Helpers[F](Args...); trailing parameters with a default may be left out
 )
 
 // Expr is an expression node. T is its (static) result type.
@@ -103,6 +104,9 @@ type Expr struct {
 	V uint64 `json:"v,omitempty"`
 	// lit of float type written as an integer literal (e.g. `2` where an f32 is expected)
 	IL bool `json:"il,omitempty"`
+	// call
+	F    int     `json:"f,omitempty"`
+	Args []*Expr `json:"args,omitempty"`
 }
 
 // Stmt kinds.
@@ -141,11 +145,23 @@ type Stmt struct {
 type Param struct {
 	N string `json:"n"`
 	T Ty     `json:"t"`
+	// helper parameters only: literal default value (trailing parameters)
+	Def *Expr `json:"def,omitempty"`
+}
+
+// Helper is a function the main function (and later helpers) can call in expressions:
+// scalar parameters, optional trailing defaults, no stateful variables.
+type Helper struct {
+	Name   string  `json:"name"`
+	Params []Param `json:"params"`
+	Ret    Ty      `json:"ret"`
+	Body   []Stmt  `json:"body"`
 }
 
 // Script is one case: one function and the argument vectors it is called with, in order,
 // on a single instance.
 type Script struct {
+	Helpers []Helper  `json:"helpers,omitempty"`
 	Params []Param    `json:"params"`
 	Ret    Ty         `json:"ret"`
 	Body   []Stmt     `json:"body"`
